@@ -81,7 +81,7 @@ def check(run):
     app = [p for p in pool if p["appendable"]]
     cat = [p for p in pool if p["catable"]]
     lists = []
-    nlists = 400 if thorough else 110
+    nlists = 900 if thorough else 320
     for _ in range(nlists):
         mode = rng.choice(["valid", "valid", "valid", "any", "mut"])
         k = rng.choice([1, 2, 2, 3, 3, 4])
